@@ -519,7 +519,7 @@ def miri(cid, tier, seed, jobs, scale, outdir, m, log):
             cmd += ["--parts", parts]
         lf = open(os.path.join(mdir, "miri-%d.log" % i), "w")
         procs.append((i, subprocess.Popen(cmd, cwd=harness, env=e, stdout=lf, stderr=subprocess.STDOUT), lf))
-    deadline = time.time() + 3600
+    deadline = time.time() + 900
     for i, p, lf in procs:
         try:
             rc = p.wait(timeout=max(1, deadline - time.time()))
